@@ -392,11 +392,14 @@ static int ux_receive(struct xcm_socket *__restrict s,
     int rc = recv(us->fd, buf, capacity, MSG_TRUNC);
 
     if (rc > 0) {
+	/* with MSG_TRUNC, 'rc' is the real length of the message, which
+	   may exceed the capacity of the user's buffer */
+	size_t user_len = UT_MIN(rc, capacity);
 	LOG_RCV_MSG(s, (size_t)rc);
 	XCM_TP_CNT_MSG_INC(us->cnts, from_lower, rc);
-	LOG_APP_DELIVERED(s, rc);
-	XCM_TP_CNT_MSG_INC(us->cnts, to_app, rc);
-	return UT_MIN(rc, capacity);
+	LOG_APP_DELIVERED(s, user_len);
+	XCM_TP_CNT_MSG_INC(us->cnts, to_app, user_len);
+	return user_len;
     } else if (rc == 0) {
 	LOG_RCV_EOF(s);
 	return 0;
